@@ -4,10 +4,11 @@ files into plain dicts (no descriptor classes, no cache shared with pybufrkit).
 
 B[id] = (name, unit, scale, reference, width)      D[id] = [member ids]
 """
+from mc import REPO
 import json
 import os
 
-TABLES_ROOT = '/repo/pybufrkit/tables'
+TABLES_ROOT = os.path.join(REPO, 'pybufrkit/tables')
 _cache = {}
 
 
